@@ -49,13 +49,13 @@ BRK = ["never", "const_true", "at_k", "at_input", "immediately"]
 CTX = ["top", "in_loop", "in_if", "in_function", "inlined"]
 
 
-def term_loop_cases(modules, thorough: bool) -> list[dict]:
+def term_loop_cases(modules, thorough: bool, escalate: bool = False) -> list[dict]:
     """quick: the full (trip count x cond) product for the modules that define their own Loop class
     (v17, v19, v21); for the re-exporting modules the cond-omitted column. thorough: everything."""
     cases = []
     quick_brk = [b for b in BRK if b != "const_true"]
     for mod in modules:
-        own = thorough or mod in ("v17", "v19", "v21")
+        own = thorough or escalate or mod in ("v17", "v19", "v21")  # (escalate: the glue code changed)
         for m in M_SRC:
             if not thorough and (m == "const1" or (not own and m not in ("const", "computed", "input"))):
                 continue
@@ -256,6 +256,8 @@ SCAN_FAMILY = [
     {"len": "N", "axes": "out1"},   # scan_output_axes=[1, ...]
     {"len": 3, "axes": "reverse"},  # scan_input_directions / scan_output_directions = 1
     {"len": "N", "axes": "in1out1"},
+    {"len": 3, "axes": "out1"},     # constant scan length that lands on axis 1 of two of the scan outputs
+    {"len": 3, "axes": "outneg"},   # scan_output_axes=[-1, ...]
 ]
 
 
@@ -283,6 +285,8 @@ def run_scan_family(case: dict, rng, sizes, max_inst: int, extra_feeds=()) -> di
                 kw["scan_input_axes"] = [1]
             if ax in ("out1", "in1out1"):
                 kw["scan_output_axes"] = [1, 0, 1, 0]
+            if ax == "outneg":
+                kw["scan_output_axes"] = [-1, 0, -2, 0]
             if ax == "reverse":
                 kw["scan_input_directions"] = [1]
                 kw["scan_output_directions"] = [1, 0, 1, 0]
@@ -299,9 +303,17 @@ def run_scan_family(case: dict, rng, sizes, max_inst: int, extra_feeds=()) -> di
 SOURCES = [
     "const", "init", "computed", "sizeof", "computed_float", "inline_arith", "inline_loop_break", "inline_loop_full",
     "inline_loop_condless", "inline_if", "loop_const", "loop_break", "if_const", "if_input", "function", "default", "input", "shape_static", "shape_symbolic",
+    # If with a constant condition and DIFFERENT constants in the two branches (a propagation that takes the wrong branch)
+    "if_const_false", "inline_if_true",
+    # sampling operators: the built model draws a fresh sample on every run, so nothing may be claimed from one
+    "random_uniform", "random_normal", "random_uniform_like", "random_normal_like", "multinomial", "bernoulli", "dropout",
+    "dropout_mask",
 ]
+NONE_QUICK = ("const", "computed", "inline_arith", "if_const", "default", "multinomial", "shape_static", "loop_const", "init")
+RANDOM_SOURCES = ("random_uniform", "random_normal", "random_uniform_like", "random_normal_like", "multinomial", "bernoulli",
+                  "dropout", "dropout_mask")
 # sources whose value exists at compile time (or could): the ones worth the slow ONNXRUNTIME backend in the quick tier
-ORT_QUICK = ("computed", "inline_loop_break", "default", "shape_symbolic")
+ORT_QUICK = ("computed", "inline_loop_break", "default", "shape_symbolic", "if_const", "if_const_false", "multinomial", "random_uniform")
 GROUPS = ["safe", "risky"]
 BACKENDS = ["REFERENCE", "ONNXRUNTIME", "NONE"]
 
@@ -371,8 +383,37 @@ def _source(op, kind: str, args: dict):
 
         (r,) = op.loop(op.const(_i(3)), None, [op.const(_i(0))], body=body)
         return r
-    if kind in ("if_const", "if_input"):
-        c = op.const(np.array(True)) if kind == "if_const" else inp("c", {"e": "bool", "s": []})
+    if kind == "inline_if_true":
+        c = argument(L.ty_from_json({"e": "bool", "s": []}))
+        (r,) = op.if_(c, then_branch=lambda: [op.const(_i(3))], else_branch=lambda: [op.const(_i(4))])
+        mod = build({"c": c}, {"r": r})
+        return inline(mod)(c=op.const(np.array(True)))["r"]
+    if kind in RANDOM_SOURCES:
+        # an int64 scalar in 0..8 computed from a sample
+        f32 = np.float32
+        scalar = op.const(np.array([], dtype=I64))
+
+        def to_k(v):  # floor of a float sample in [0, 5)
+            return op.reshape(op.cast(op.floor(op.clip(v, op.const(f32(0.0)), op.const(f32(4.9)))), to=I64), scalar)
+
+        if kind == "random_uniform":
+            return to_k(op.random_uniform(low=0.0, high=5.0, shape=[1]))
+        if kind == "random_normal":
+            return to_k(op.random_normal(mean=2.5, scale=2.0, shape=[1]))
+        if kind == "random_uniform_like":
+            return to_k(op.random_uniform_like(op.const(np.zeros((1,), f32)), low=0.0, high=5.0))
+        if kind == "random_normal_like":
+            return to_k(op.random_normal_like(op.const(np.zeros((1,), f32)), mean=2.5, scale=2.0))
+        if kind == "multinomial":
+            return op.reshape(op.multinomial(op.const(np.zeros((1, 5), f32)), dtype=np.int64, sample_size=1), scalar)
+        if kind == "bernoulli":
+            b = op.cast(op.bernoulli(op.const(np.full((1,), 0.5, f32))), to=I64)
+            return op.reshape(op.add(op.mul(b, op.const(_i(3))), op.const(_i(1))), scalar)  # 1 or 4
+        out, mask = op.dropout(op.const(np.ones((8,), f32)), op.const(f32(0.5)), op.const(np.array(True)))
+        kept = op.cast(mask, to=I64) if kind == "dropout_mask" else op.cast(op.greater(out, op.const(f32(0.0))), to=I64)
+        return op.reduce_sum(kept, keepdims=0)  # how many of the 8 entries survived
+    if kind in ("if_const", "if_input", "if_const_false"):
+        c = inp("c", {"e": "bool", "s": []}) if kind == "if_input" else op.const(np.array(kind == "if_const"))
         (r,) = op.if_(c, then_branch=lambda: [op.const(_i(3))], else_branch=lambda: [op.const(_i(4))])
         return r
     if kind == "function":
@@ -425,16 +466,18 @@ def _vdep_consumers(op, k, x, group: str) -> list:
     return outs + [op.identity(o) for o in outs]
 
 
-def vdep_cases(thorough: bool) -> list[dict]:
+def vdep_cases(thorough: bool, escalate: bool = False) -> list[dict]:
     cases = []
     mods = P.OPSET_MODULES
     for j, src in enumerate(SOURCES):
         for g in GROUPS:
             for b in BACKENDS:
-                if not thorough and b != "REFERENCE" and g == "risky":
+                if not (thorough or escalate) and b != "REFERENCE" and g == "risky":
                     continue
-                if not thorough and b == "ONNXRUNTIME" and src not in ORT_QUICK:
+                if not (thorough or escalate) and b == "ONNXRUNTIME" and src not in ORT_QUICK:
                     continue
+                if not (thorough or escalate) and b == "NONE" and src not in NONE_QUICK:
+                    continue  # (with propagation off nothing constant can be claimed from most sources)
                 cases.append({"src": src, "group": g, "backend": b, "module": mods[j % len(mods)] if not thorough else None})
     if thorough:
         cases = [dict(c, module=m) for c in cases for m in mods]
@@ -465,6 +508,8 @@ def run_vdep(case: dict, rng, sizes, max_inst: int, extra_feeds=()) -> dict:
         feeds = [dict(base, k=_i(v)) for v in (0, 1, 3, 4)]
     if "d" in args:
         feeds = [dict(base), dict(base, d=_i(4)), dict(base, d=_i(1))]
+    if case["src"] in RANDOM_SOURCES:  # every run draws a fresh sample
+        feeds = [dict(base) for _ in range(8)]
     if "y" in args:
         n0 = args["y"].type.shape[0]
         feeds = [dict(base, y=np.zeros((n, 2), np.float32)) for n in ((n0,) if isinstance(n0, int) else (0, 1, 3, 4))]
@@ -484,3 +529,124 @@ def run_vdep(case: dict, rng, sizes, max_inst: int, extra_feeds=()) -> dict:
             collapsed.append(f)
     st["fails"] = collapsed
     return st
+
+
+# ----------------------------------------------------------------------------- every single-input operator
+# EVERY constructor of every opset module that can be applied to ONE Var (all other parameters
+# defaulted), applied to an input with distinct constant dims that shape-changing operators change
+# (Det, GlobalAveragePool / GlobalMaxPool / GlobalLpPool, Squeeze, Transpose, Flatten, ArgMax, Shape,
+# Size, NonZero, reductions without axes, ...): reported type vs. what onnxruntime computes.
+ALL_MODULES = ["v17", "v18", "v19", "v20", "v21", "ml.v3", "ml.v4", "ml.v5"]
+UNARY_CANDIDATES = [
+    {"e": "f32", "s": [1, 2, 3, 3]}, {"e": "f32", "s": [2, 3]}, {"e": "i64", "s": [1, 2, 3, 3]},
+    {"e": "bool", "s": [1, 2, 3, 3]}, {"e": "str", "s": [2, 3]}, {"e": "f32", "s": []}, {"e": "i64", "s": []},
+    {"e": "f32", "s": [1, 3, 4]},
+]
+UNARY_SYMBOLIC = [{"e": "f32", "s": ["N", 2, 3, 3]}, {"e": "f32", "s": [1, "C", 3, 3]}, {"e": "i64", "s": ["N", 3]}]
+
+
+def _any_module(name: str):
+    import importlib
+
+    return importlib.import_module(f"spox.opset.ai.onnx.{name}")
+
+
+def unary_ops(module: str) -> list:
+    """Names (operator identifiers) of the module's constructors callable with exactly one Var."""
+    import inspect
+
+    mod = _any_module(module)
+    table = getattr(mod, "_CONSTRUCTORS", None)
+    if not isinstance(table, dict):
+        table = {n: getattr(mod, n) for n in getattr(mod, "__all__", []) if callable(getattr(mod, n, None))}
+    out = []
+    for name, fn in sorted(table.items()):
+        try:
+            ps = list(inspect.signature(fn).parameters.values())
+        except (TypeError, ValueError):
+            continue
+        req = [p for p in ps if p.default is inspect.Parameter.empty and p.kind in (p.POSITIONAL_ONLY, p.POSITIONAL_OR_KEYWORD)]
+        kwreq = [p for p in ps if p.default is inspect.Parameter.empty and p.kind == p.KEYWORD_ONLY]
+        if len(req) == 1 and not kwreq and "Sequence" not in str(req[0].annotation) and "Var" in str(req[0].annotation):
+            out.append(name)
+    return out
+
+
+def unary_cases(thorough: bool, chunk: int = 12) -> list[dict]:
+    cases = []
+    for m in ALL_MODULES:
+        try:
+            names = unary_ops(m)
+        except Exception:  # noqa: BLE001
+            names = []
+        for i in range(0, len(names), chunk):
+            cases.append({"module": m, "ops": names[i:i + chunk], "symbolic": False})
+            if thorough:
+                cases.append({"module": m, "ops": names[i:i + chunk], "symbolic": True})
+    return cases
+
+
+def _apply_unary(mod, name: str, args: dict, cands: list):
+    """First candidate input type the constructor accepts -> list of result Vars (or None)."""
+    table = getattr(mod, "_CONSTRUCTORS", None) or {}
+    fn = table.get(name) or getattr(mod, name)
+    for j, t in enumerate(cands):
+        key = f"u{j}"
+        if key not in args:
+            args.update(P.make_args({key: L.ty_from_json(t)}))
+        try:
+            r = fn(args[key])
+        except Exception:  # noqa: BLE001 - this candidate is not accepted
+            continue
+        outs = list(r) if isinstance(r, (tuple, list)) else [r]
+        outs = [o for o in outs if hasattr(o, "type")]
+        if outs:
+            return outs
+    return None
+
+
+def run_unary_all(case: dict, rng, sizes, max_inst: int, extra_feeds=()) -> dict:
+    cands = UNARY_SYMBOLIC + UNARY_CANDIDATES if case.get("symbolic") else UNARY_CANDIDATES
+
+    def attempt(names, cands=cands):
+        all_args: dict = {}
+        outs: list = []
+        applied = 0
+        with warnings.catch_warnings():
+            warnings.simplefilter("ignore")
+            mod = _any_module(case["module"])
+            for n in names:
+                r = _apply_unary(mod, n, all_args, cands)
+                if r:
+                    applied += 1
+                    outs += r
+        used = {id(v) for v in all_args.values()}
+        args = {k: v for k, v in all_args.items() if id(v) in used}
+        if not outs:
+            return {"rejected": True, "error": "no constructor accepted any candidate", "runs": 0, "refused": 0, "checked": 0, "fails": []}, 0
+        st = P.observe(args, outs, rng, sizes, max_inst, extra_feeds=extra_feeds)
+        return st, applied
+
+    try:
+        st, applied = attempt(case["ops"])
+        if (st.get("load_error") or st.get("checked", 0) == 0) and len(case["ops"]) > 1:  # one operator the runtime cannot load / run: one by one
+            tot = {"rejected": False, "runs": 0, "refused": 0, "checked": 0, "fails": [], "unloadable": []}
+            applied = 0
+            for n in case["ops"]:
+                for c1 in cands:  # the first candidate type on which the operator is built AND runs
+                    s1, a1 = attempt([n], [c1])
+                    if s1.get("checked", 0) or s1["fails"]:
+                        break
+                applied += a1
+                if s1.get("load_error") or (a1 and s1.get("checked", 0) == 0):
+                    tot["unloadable"].append(n)
+                for k in ("runs", "refused", "checked"):
+                    tot[k] += s1.get(k, 0)
+                for f in s1["fails"]:
+                    if not any(g["key"] == f["key"] for g in tot["fails"]):
+                        tot["fails"].append(f)
+            st = tot
+        st["applied"] = applied
+        return st
+    except Exception as e:  # noqa: BLE001
+        return _rej(e)
